@@ -250,17 +250,28 @@ def load_tables(drv):
 
 
 def static_tables_fallback():
-    """Tables without the driver (driver could not be built): parse them with the translator itself."""
-    import sys
-    sys.path.insert(0, str(common.VERIF / 'tools'))
-    import gen_bsp
-    S = gen_bsp.Source(common.REPO)
-    d = gen_bsp.extract_c10(S)
-    names = [v['name'] for v in d['views']]
-    used = set(range(64)) | {64 + i for i in range(len(S.game_ids))}
-    T = {'raw': None, 'names': names, 'idx': {n: i for i, n in enumerate(names)}, 'main': [v['main'] for v in d['views']],
-         'game_ids': [g.decode('latin-1') for g in S.game_ids], 'lump_names': {i: S.lump_name(i) for i in used}}
-    T['owned'] = {i: any(i in v['clears'] for v in d['views']) for i in used}
+    """The few facts the DIRECT search needs (view names, main lump / to_clear of each view, game-lump ids), taken
+    from the implementation's own ParsedLump descriptors at run time — no translator, no driver: the property
+    oracle must keep working when the source shape is no longer understood by tools/gen_bsp.py."""
+    B = U.impl()
+    descs = [(k, v) for k, v in vars(B.BSP).items() if isinstance(v, B.ParsedLump)]
+    game_ids = []
+    for _, d in descs:
+        for l in d.to_clear:
+            if isinstance(l, bytes) and l.decode('latin-1') not in game_ids:
+                game_ids.append(l.decode('latin-1'))
+
+    def lid(l):
+        return 64 + game_ids.index(l.decode('latin-1')) if isinstance(l, bytes) else l.value
+    names = [k for k, _ in descs]
+    clears = [[lid(l) for l in d.to_clear] for _, d in descs]
+    used = set(range(64)) | {64 + i for i in range(len(game_ids))}
+    lump_names = {m.value: m.name for m in B.BSP_LUMPS}
+    for i, g in enumerate(game_ids):
+        lump_names[64 + i] = g
+    T = {'raw': None, 'names': names, 'idx': {n: i for i, n in enumerate(names)}, 'main': [lid(d.lump) for _, d in descs],
+         'game_ids': game_ids, 'lump_names': lump_names}
+    T['owned'] = {i: any(i in c for c in clears) for i in used}
     return T
 
 
@@ -433,7 +444,16 @@ def _run_all(ctx, drv, T):
 
 def correspond(ctx, drivers):
     drv = drivers['drv_c10']
-    T = load_tables(drv)
+    try:
+        T = load_tables(drv)
+        if sorted(T['names']) != sorted(U.view_names()):
+            raise common.InternalError('views of the driver tables differ from the ParsedLump attributes')
+    except Exception as e:
+        # the driver has no usable tables (stale / failed extraction): no model comparison, the direct search still runs
+        ctx.broken.append(f'correspond: driver tables unusable ({type(e).__name__}: {e}); model comparison skipped')
+        ctx.exhaustive = False
+        _run_all(ctx, None, static_tables_fallback())
+        return
     t = T['raw']
     for pred in ('WF', 'WritesAll', 'Topo', 'RAcyclic', 'Frame', 'BorrowOK'):
         ctx.extra.setdefault('table_predicates', {})[pred] = t[pred]
